@@ -215,7 +215,15 @@ func normalizeToIntString(n numberParts) (string, bool) {
 		// unnecessarily constructing a large byte slice that may simply fail
 		// later on.
 		const maxDigits = 20 // Max uint64 value has 20 decimal digits.
-		if intpSize+exp > maxDigits {
+		// Leading zeros of the fraction (as in 0.001e3) do not contribute
+		// digits to the result; they are bounded by the length of the input.
+		lead := 0
+		if intpSize == 0 {
+			for lead < fracSize && n.frac[lead] == '0' {
+				lead++
+			}
+		}
+		if intpSize+exp-lead > maxDigits {
 			return "", false
 		}
 
